@@ -22,6 +22,7 @@ type cmd struct {
 	fsm        func(f *fsm.FSM, idx uint64) string
 	cond       *cond // monitor of a conditional write, nil for unconditional commands
 	multi      bool  // multi-op transaction: all-or-nothing monitor
+	tops       []top // the operations of a transaction (per-op monitor)
 	// fsmUncond: the FSM layer treats this command as an unconditional write (CAOpSetConfig
 	// with ModifyIndex 0), so the conditional-write monitor does not apply in world f.
 	fsmUncond bool
@@ -81,6 +82,19 @@ func kvDelCasCmd(k string, cidx uint64) cmd {
 type top struct {
 	tok string
 	mk  func() *structs.TxnOp
+	oc  *opCond // set for conditional verbs: how the per-op monitor judges this op
+}
+
+// opCond: what a conditional verb inside a transaction is compared with.
+type opCond struct {
+	typ, rule string
+	cidx      uint64
+	read      func(st *state.Store) ent
+}
+
+func (t top) cond(typ, rule string, cidx uint64, read func(st *state.Store) ent) top {
+	t.oc = &opCond{typ, rule, cidx, read}
+	return t
 }
 
 func txnCmd(ops ...top) cmd {
@@ -95,7 +109,7 @@ func txnCmd(ops ...top) cmd {
 		}
 		return out
 	}
-	return cmd{name: "txn", args: hx.EncList(toks), multi: len(ops) != 1,
+	return cmd{name: "txn", args: hx.EncList(toks), multi: len(ops) != 1, tops: ops,
 		store: func(st *state.Store, idx uint64) string { return txnStr(st.TxnRW(idx, build())) },
 		fsm: func(f *fsm.FSM, idx uint64) string {
 			return resIface(fsmApply(f, idx, structs.TxnRequestType, &structs.TxnRequest{Datacenter: "dc1", Ops: build()}))
@@ -103,7 +117,7 @@ func txnCmd(ops ...top) cmd {
 }
 
 func kvTop(verb api.KVOp, tok string, k, v string, fl, cidx uint64) top {
-	return top{tok, func() *structs.TxnOp {
+	return top{tok: tok, mk: func() *structs.TxnOp {
 		return &structs.TxnOp{KV: &structs.TxnKVOp{Verb: verb, DirEnt: dirEnt(k, v, fl, cidx)}}
 	}}
 }
@@ -112,14 +126,14 @@ func tKVSet(k, v string, fl uint64) top {
 }
 func tKVDel(k string) top { return kvTop(api.KVDelete, "kd;"+hx.EncS(k), k, "", 0, 0) }
 func tKVCas(k, v string, fl, cidx uint64) top {
-	return kvTop(api.KVCAS, fmt.Sprintf("kc;%s;%s;%d;%d", hx.EncS(k), hx.EncS(v), fl, cidx), k, v, fl, cidx)
+	return kvTop(api.KVCAS, fmt.Sprintf("kc;%s;%s;%d;%d", hx.EncS(k), hx.EncS(v), fl, cidx), k, v, fl, cidx).cond("kvCasTxn", "set", cidx, readKV(k))
 }
 func tKVDelCas(k string, cidx uint64) top {
-	return kvTop(api.KVDeleteCAS, fmt.Sprintf("kdc;%s;%d", hx.EncS(k), cidx), k, "", 0, cidx)
+	return kvTop(api.KVDeleteCAS, fmt.Sprintf("kdc;%s;%d", hx.EncS(k), cidx), k, "", 0, cidx).cond("kvDeleteCasTxn", "del-kv", cidx, readKV(k))
 }
 
 func nodeTop(verb api.NodeOp, tok, n, addr, id string, cidx uint64) top {
-	return top{tok, func() *structs.TxnOp {
+	return top{tok: tok, mk: func() *structs.TxnOp {
 		return &structs.TxnOp{Node: &structs.TxnNodeOp{Verb: verb, Node: structs.Node{Node: n, ID: types.NodeID(id), Address: addr, RaftIndex: ridx(cidx)}}}
 	}}
 }
@@ -130,14 +144,14 @@ func tNodeDel(n, id string) top {
 	return nodeTop(api.NodeDelete, "nd;"+hx.EncS(n)+";"+hx.EncS(id), n, "", id, 0)
 }
 func tNodeCas(n, a, id string, cidx uint64) top {
-	return nodeTop(api.NodeCAS, fmt.Sprintf("nc;%s;%s;%s;%d", hx.EncS(n), hx.EncS(a), hx.EncS(id), cidx), n, a, id, cidx)
+	return nodeTop(api.NodeCAS, fmt.Sprintf("nc;%s;%s;%s;%d", hx.EncS(n), hx.EncS(a), hx.EncS(id), cidx), n, a, id, cidx).cond("nodeCas", "set", cidx, readNode(n))
 }
 func tNodeDelCas(n, id string, cidx uint64) top {
-	return nodeTop(api.NodeDeleteCAS, fmt.Sprintf("ndc;%s;%s;%d", hx.EncS(n), hx.EncS(id), cidx), n, "", id, cidx)
+	return nodeTop(api.NodeDeleteCAS, fmt.Sprintf("ndc;%s;%s;%d", hx.EncS(n), hx.EncS(id), cidx), n, "", id, cidx).cond("nodeDeleteCas", "del", cidx, readNode(n))
 }
 
 func svcTop(verb api.ServiceOp, tok, n, id string, port int, cidx uint64) top {
-	return top{tok, func() *structs.TxnOp {
+	return top{tok: tok, mk: func() *structs.TxnOp {
 		return &structs.TxnOp{Service: &structs.TxnServiceOp{Verb: verb, Node: n,
 			Service: structs.NodeService{ID: id, Service: id, Port: port, RaftIndex: ridx(cidx)}}}
 	}}
@@ -149,47 +163,63 @@ func tSvcDel(n, id string) top {
 	return svcTop(api.ServiceDelete, "sd;"+hx.EncS(n)+";"+hx.EncS(id), n, id, 0, 0)
 }
 func tSvcCas(n, id string, port int, cidx uint64) top {
-	return svcTop(api.ServiceCAS, fmt.Sprintf("sc;%s;%s;%d;%d", hx.EncS(n), hx.EncS(id), port, cidx), n, id, port, cidx)
+	return svcTop(api.ServiceCAS, fmt.Sprintf("sc;%s;%s;%d;%d", hx.EncS(n), hx.EncS(id), port, cidx), n, id, port, cidx).cond("serviceCas", "set", cidx, readSvc(n, id))
 }
 func tSvcDelCas(n, id string, cidx uint64) top {
-	return svcTop(api.ServiceDeleteCAS, fmt.Sprintf("sdc;%s;%s;%d", hx.EncS(n), hx.EncS(id), cidx), n, id, 0, cidx)
+	return svcTop(api.ServiceDeleteCAS, fmt.Sprintf("sdc;%s;%s;%d", hx.EncS(n), hx.EncS(id), cidx), n, id, 0, cidx).cond("serviceDeleteCas", "del", cidx, readSvc(n, id))
 }
 
-func chkTop(verb api.CheckOp, tok, n, id, svcID, out string, cidx uint64) top {
-	return top{tok, func() *structs.TxnOp {
+func chkTop(verb api.CheckOp, tok, n, id, svcID, out, status string, cidx uint64) top {
+	return top{tok: tok, mk: func() *structs.TxnOp {
 		return &structs.TxnOp{Check: &structs.TxnCheckOp{Verb: verb, Check: structs.HealthCheck{
-			Node: n, CheckID: types.CheckID(id), Name: id, Status: api.HealthPassing, ServiceID: svcID, Output: out, RaftIndex: ridx(cidx)}}}
+			Node: n, CheckID: types.CheckID(id), Name: id, Status: status, ServiceID: svcID, Output: out, RaftIndex: ridx(cidx)}}}
 	}}
 }
-func tChkSet(n, id, svcID, out string) top {
-	return chkTop(api.CheckSet, fmt.Sprintf("cs;%s;%s;%s;%s", hx.EncS(n), hx.EncS(id), hx.EncS(svcID), hx.EncS(out)), n, id, svcID, out, 0)
+func tChkSet(n, id, svcID, out, status string) top {
+	return chkTop(api.CheckSet, fmt.Sprintf("cs;%s;%s;%s;%s;%s", hx.EncS(n), hx.EncS(id), hx.EncS(svcID), hx.EncS(out), hx.EncS(status)), n, id, svcID, out, status, 0)
 }
 func tChkDel(n, id string) top {
-	return chkTop(api.CheckDelete, "cd;"+hx.EncS(n)+";"+hx.EncS(id), n, id, "", "", 0)
+	return chkTop(api.CheckDelete, "cd;"+hx.EncS(n)+";"+hx.EncS(id), n, id, "", "", api.HealthPassing, 0)
 }
-func tChkCas(n, id, svcID, out string, cidx uint64) top {
-	return chkTop(api.CheckCAS, fmt.Sprintf("cc;%s;%s;%s;%s;%d", hx.EncS(n), hx.EncS(id), hx.EncS(svcID), hx.EncS(out), cidx), n, id, svcID, out, cidx)
+func tChkCas(n, id, svcID, out, status string, cidx uint64) top {
+	return chkTop(api.CheckCAS, fmt.Sprintf("cc;%s;%s;%s;%s;%s;%d", hx.EncS(n), hx.EncS(id), hx.EncS(svcID), hx.EncS(out), hx.EncS(status), cidx), n, id, svcID, out, status, cidx).cond("checkCas", "set", cidx, readChk(n, id))
 }
 func tChkDelCas(n, id string, cidx uint64) top {
-	return chkTop(api.CheckDeleteCAS, fmt.Sprintf("cdc;%s;%s;%d", hx.EncS(n), hx.EncS(id), cidx), n, id, "", "", cidx)
+	return chkTop(api.CheckDeleteCAS, fmt.Sprintf("cdc;%s;%s;%d", hx.EncS(n), hx.EncS(id), cidx), n, id, "", "", api.HealthPassing, cidx).cond("checkDeleteCas", "del", cidx, readChk(n, id))
 }
 
 // ---------------------------------------------------------------- config entries
 
 func isControlledKind(kind string) bool { return kind == structs.TCPRoute }
 
-func cfgEntry(kind, name, val, status string, cidx uint64) structs.ConfigEntry {
+// cfgHasFlag: kinds whose entry carries the modelled boolean (service-defaults:
+// MutualTLSMode=permissive, mesh: AllowEnablingPermissiveMutualTLS).
+func cfgHasFlag(kind string) bool { return kind == structs.ServiceDefaults || kind == structs.MeshConfig }
+
+func cfgEntry(kind, name, val, status string, flag bool, cidx uint64) structs.ConfigEntry {
 	meta := map[string]string{"v": val}
 	var e structs.ConfigEntry
 	switch kind {
 	case structs.ServiceDefaults:
-		e = &structs.ServiceConfigEntry{Kind: kind, Name: name, Meta: meta}
+		sd := &structs.ServiceConfigEntry{Kind: kind, Name: name, Meta: meta}
+		if flag {
+			sd.MutualTLSMode = structs.MutualTLSModePermissive
+		}
+		e = sd
 	case structs.TCPRoute:
 		r := &structs.TCPRouteConfigEntry{Kind: kind, Name: name, Meta: meta}
 		if status != "" {
 			r.Status = structs.Status{Conditions: []structs.Condition{{Type: "t", Status: status}}}
 		}
 		e = r
+	case structs.MeshConfig:
+		e = &structs.MeshConfigEntry{Meta: meta, AllowEnablingPermissiveMutualTLS: flag}
+	case structs.IngressGateway:
+		e = &structs.IngressGatewayConfigEntry{Kind: kind, Name: name, Meta: meta}
+	case structs.TerminatingGateway:
+		e = &structs.TerminatingGatewayConfigEntry{Kind: kind, Name: name, Meta: meta}
+	case structs.ServiceSplitter:
+		e = &structs.ServiceSplitterConfigEntry{Kind: kind, Name: name, Meta: meta, Splits: []structs.ServiceSplit{{Weight: 100}}}
 	default:
 		panic("kind " + kind)
 	}
@@ -206,23 +236,25 @@ func cfgFSM(op structs.ConfigEntryOp, mk func() structs.ConfigEntry) func(f *fsm
 	}
 }
 
-func cfgSetCmd(kind, name, val string) cmd {
-	mk := func() structs.ConfigEntry { return cfgEntry(kind, name, val, "", 0) }
-	return cmd{name: "cfgset", args: fmt.Sprintf("%s %s %s", hx.EncS(kind), hx.EncS(name), hx.EncS(val)),
+func cfgSetCmd(kind, name, val string, flag bool) cmd {
+	flag = flag && cfgHasFlag(kind)
+	mk := func() structs.ConfigEntry { return cfgEntry(kind, name, val, "", flag, 0) }
+	return cmd{name: "cfgset", args: fmt.Sprintf("%s %s %s %s", hx.EncS(kind), hx.EncS(name), hx.EncS(val), hx.EncBool(flag)),
 		store: func(st *state.Store, idx uint64) string { return resErr(st.EnsureConfigEntry(idx, mk())) },
 		fsm:   cfgFSM(structs.ConfigEntryUpsert, mk)}
 }
 
 func cfgDelCmd(kind, name string) cmd {
-	mk := func() structs.ConfigEntry { return cfgEntry(kind, name, "", "", 0) }
+	mk := func() structs.ConfigEntry { return cfgEntry(kind, name, "", "", false, 0) }
 	return cmd{name: "cfgdel", args: hx.EncS(kind) + " " + hx.EncS(name),
 		store: func(st *state.Store, idx uint64) string { return resErr(st.DeleteConfigEntry(idx, kind, name, nil)) },
 		fsm:   cfgFSM(structs.ConfigEntryDelete, mk)}
 }
 
-func cfgCasCmd(withStatus bool, kind, name, val, status string, cidx uint64) cmd {
-	mk := func() structs.ConfigEntry { return cfgEntry(kind, name, val, status, cidx) }
-	c := cmd{name: "cfgcas", args: fmt.Sprintf("%s %s %s %s %d", hx.EncS(kind), hx.EncS(name), hx.EncS(val), hx.EncS(status), cidx)}
+func cfgCasCmd(withStatus bool, kind, name, val, status string, flag bool, cidx uint64) cmd {
+	flag = flag && cfgHasFlag(kind)
+	mk := func() structs.ConfigEntry { return cfgEntry(kind, name, val, status, flag, cidx) }
+	c := cmd{name: "cfgcas", args: fmt.Sprintf("%s %s %s %s %s %d", hx.EncS(kind), hx.EncS(name), hx.EncS(val), hx.EncS(status), hx.EncBool(flag), cidx)}
 	if withStatus {
 		c.name = "cfgstcas"
 		c.store = func(st *state.Store, idx uint64) string {
@@ -237,7 +269,7 @@ func cfgCasCmd(withStatus bool, kind, name, val, status string, cidx uint64) cmd
 }
 
 func cfgDelCasCmd(kind, name string, cidx uint64) cmd {
-	mk := func() structs.ConfigEntry { return cfgEntry(kind, name, "", "", cidx) }
+	mk := func() structs.ConfigEntry { return cfgEntry(kind, name, "", "", false, cidx) }
 	return cmd{name: "cfgdelcas", args: fmt.Sprintf("%s %s %d", hx.EncS(kind), hx.EncS(name), cidx),
 		store: func(st *state.Store, idx uint64) string { return resBoolErr(st.DeleteConfigEntryCAS(idx, cidx, mk())) },
 		fsm:   cfgFSM(structs.ConfigEntryDeleteCAS, mk)}
